@@ -1293,4 +1293,236 @@ theorem bioVoters_safe_funded (budget n : Nat) (h : 10 * n ≤ budget) :
     · rfl
     · exact ih (budget - 10) (by omega) v hv
 
+/-! ## Part 13 — colonies (registration by name) and histories of operations on one quorum object -/
+
+def Member.Valid (m : Member) : Prop := 0 ≤ m.weight ∧ 0 ≤ m.rel
+
+/-- the arguments an operation supplies are in the property's domain: weights, reliabilities, numeric confidences
+    and custom thresholds are not negative -/
+def Op.Valid : Op → Prop
+  | .setStrategy _ custom => ∀ t, custom = some t → 0 ≤ t
+  | .add _ w => 0 ≤ w
+  | .setWeight _ w => 0 ≤ w
+  | .assign _ w r => (∀ x, w = some x → 0 ≤ x) ∧ (∀ x, r = some x → 0 ≤ x)
+  | .vote beh => ∀ i c, (beh i).conf = .num c → 0 ≤ c
+  | _ => True
+
+def QState.Valid (st : QState) : Prop := NonNegThreshold st.cfg ∧ ∀ m ∈ st.colony, m.Valid
+
+theorem electorateFrom_length (beh : Nat → Behaviour) (i : Nat) (c : List Member) :
+    (electorateFrom beh i c).length = c.length := by
+  induction c generalizing i with
+  | nil => rfl
+  | cons m rest ih => simp [electorateFrom, ih]
+
+theorem electorate_length (c : List Member) (beh : Nat → Behaviour) : (electorate c beh).length = c.length :=
+  electorateFrom_length beh 0 c
+
+theorem electorateFrom_valid (beh : Nat → Behaviour) (hb : ∀ i c, (beh i).conf = .num c → 0 ≤ c) (i : Nat)
+    (c : List Member) (hc : ∀ m ∈ c, m.Valid) : ∀ v ∈ electorateFrom beh i c, v.Valid := by
+  induction c generalizing i with
+  | nil => intro v hv; cases hv
+  | cons m rest ih =>
+    intro v hv
+    simp only [electorateFrom, List.mem_cons] at hv
+    rcases hv with rfl | hv
+    · have := hc m (by simp)
+      exact ⟨this.1, this.2, fun c' h => hb i c' h⟩
+    · exact ih (i + 1) (fun x hx => hc x (by simp [hx])) v hv
+
+theorem removeAgent_sub (c : List Member) (name : List Nat) : ∀ m ∈ (removeAgent c name).1, m ∈ c := by
+  induction c with
+  | nil => intro m hm; cases hm
+  | cons x rest ih =>
+    intro m hm
+    unfold removeAgent at hm
+    split_ifs at hm
+    · exact List.mem_cons_of_mem _ hm
+    · simp only [List.mem_cons] at hm
+      rcases hm with rfl | hm
+      · simp
+      · exact List.mem_cons_of_mem _ (ih m hm)
+
+theorem removeAgent_length (c : List Member) (name : List Nat) :
+    (removeAgent c name).1.length = if (removeAgent c name).2 then c.length - 1 else c.length := by
+  induction c with
+  | nil => simp [removeAgent]
+  | cons x rest ih =>
+    by_cases h1 : x.name = name
+    · simp [removeAgent, h1]
+    · simp only [removeAgent, h1, if_false, List.length_cons]
+      rw [ih]
+      by_cases h2 : (removeAgent rest name).2 = true
+      · have : 0 < rest.length := by
+          cases rest with
+          | nil => simp [removeAgent] at h2
+          | cons _ _ => simp
+        simp only [h2, if_true]; omega
+      · simp [h2]
+
+theorem setAgentWeight_valid (c : List Member) (name : List Nat) (w : Rat) (hw : 0 ≤ w)
+    (hc : ∀ m ∈ c, m.Valid) : ∀ m ∈ (setAgentWeight c name w).1, m.Valid := by
+  induction c with
+  | nil => intro m hm; cases hm
+  | cons x rest ih =>
+    intro m hm
+    unfold setAgentWeight at hm
+    split_ifs at hm
+    · simp only [List.mem_cons] at hm
+      rcases hm with rfl | hm
+      · exact ⟨hw, (hc x (by simp)).2⟩
+      · exact hc m (by simp [hm])
+    · simp only [List.mem_cons] at hm
+      rcases hm with rfl | hm
+      · exact hc _ (by simp)
+      · exact ih (fun y hy => hc y (by simp [hy])) m hm
+
+theorem setAgentWeight_names (c : List Member) (name : List Nat) (w : Rat) :
+    (setAgentWeight c name w).1.map (·.name) = c.map (·.name) := by
+  induction c with
+  | nil => rfl
+  | cons x rest ih =>
+    unfold setAgentWeight
+    split_ifs <;> simp [ih]
+
+theorem assignProfile_valid (c : List Member) (i : Nat) (w r : Option Rat)
+    (hw : ∀ x, w = some x → 0 ≤ x) (hr : ∀ x, r = some x → 0 ≤ x) (hc : ∀ m ∈ c, m.Valid) :
+    ∀ m ∈ assignProfile c i w r, m.Valid := by
+  induction c generalizing i with
+  | nil => intro m hm; cases hm
+  | cons x rest ih =>
+    have hx := hc x (by simp)
+    cases i with
+    | zero =>
+      intro m hm
+      simp only [assignProfile, List.mem_cons] at hm
+      rcases hm with rfl | hm
+      · constructor
+        · cases w with
+          | none => exact hx.1
+          | some v => exact hw v rfl
+        · cases r with
+          | none => exact hx.2
+          | some v => exact hr v rfl
+      · exact hc m (by simp [hm])
+    | succ i =>
+      intro m hm
+      simp only [assignProfile, List.mem_cons] at hm
+      rcases hm with rfl | hm
+      · exact hx
+      · exact ih i (fun y hy => hc y (by simp [hy])) m hm
+
+theorem afterVoteFrom_valid (beh : Nat → Behaviour) (i : Nat) (c : List Member) (hc : ∀ m ∈ c, m.Valid) :
+    ∀ m ∈ afterVoteFrom beh i c, m.Valid := by
+  induction c generalizing i with
+  | nil => intro m hm; cases hm
+  | cons x rest ih =>
+    intro m hm
+    simp only [afterVoteFrom, List.mem_cons] at hm
+    rcases hm with rfl | hm
+    · have hx := hc x (by simp)
+      split_ifs
+      · exact hx
+      · exact hx
+    · exact ih (i + 1) (fun y hy => hc y (by simp [hy])) m hm
+
+theorem updateReliability_valid (c : List Member) (name : List Nat) (ok : Bool) (hc : ∀ m ∈ c, m.Valid) :
+    ∀ m ∈ updateReliability c name ok, m.Valid := by
+  induction c with
+  | nil => intro m hm; cases hm
+  | cons x rest ih =>
+    intro m hm
+    have hx := hc x (by simp)
+    by_cases h1 : x.name = name
+    · simp only [updateReliability, h1, if_true, List.mem_cons] at hm
+      rcases hm with rfl | hm
+      · split_ifs <;> refine ⟨hx.1, ?_⟩ <;>
+          first
+          | exact hx.2
+          | (show 0 ≤ natR _ / natR _; unfold natR; positivity)
+      · exact hc m (by simp [hm])
+    · simp only [updateReliability, h1, if_false, List.mem_cons] at hm
+      rcases hm with rfl | hm
+      · exact hx
+      · exact ih (fun y hy => hc y (by simp [hy])) m hm
+
+theorem updateAllReliability_valid (last : List (List Nat × VoteType)) (d : VoteType) (c : List Member)
+    (hc : ∀ m ∈ c, m.Valid) : ∀ m ∈ updateAllReliability c last d, m.Valid := by
+  unfold updateAllReliability
+  induction last generalizing c with
+  | nil => simpa using hc
+  | cons v rest ih =>
+    simp only [List.foldl_cons]
+    exact ih _ (updateReliability_valid c v.1 _ hc)
+
+/-- validity of a quorum object is kept by every operation whose arguments are in the domain -/
+theorem stepOp_valid (st : QState) (op : Op) (hst : st.Valid) (hop : op.Valid) : (stepOp st op).1.Valid := by
+  obtain ⟨hn, hc⟩ := hst
+  cases op with
+  | setStrategy s custom => exact ⟨fun t h => hop t h, hc⟩
+  | add name w =>
+    refine ⟨hn, ?_⟩
+    intro m hm
+    simp only [stepOp, addAgent, List.mem_append, List.mem_singleton] at hm
+    rcases hm with hm | rfl
+    · exact hc m hm
+    · exact ⟨hop, by show (0 : Rat) ≤ 1; norm_num⟩
+  | remove name => exact ⟨hn, fun m hm => hc m (removeAgent_sub _ _ m hm)⟩
+  | setWeight name w => exact ⟨hn, setAgentWeight_valid _ _ _ hop hc⟩
+  | assign i w r => exact ⟨hn, assignProfile_valid _ _ _ _ hop.1 hop.2 hc⟩
+  | vote beh =>
+    simp only [stepOp]
+    split_ifs
+    · exact ⟨hn, hc⟩
+    · exact ⟨hn, afterVoteFrom_valid beh 0 _ hc⟩
+  | updateReliability name ok => exact ⟨hn, updateReliability_valid _ _ _ hc⟩
+  | updateAll d =>
+    simp only [stepOp]
+    cases hl : st.last with
+    | none => exact ⟨hn, hc⟩
+    | some l => exact ⟨hn, updateAllReliability_valid l d _ hc⟩
+
+/-- every result of every history is the `runVote` of an electorate in the property's domain under a
+    configuration with a non-negative threshold -/
+theorem history_results (ops : List Op) (st : QState) (hst : st.Valid) (hops : ∀ op ∈ ops, op.Valid) :
+    ∀ r ∈ runHistory st ops, ∃ cfg voters, r = runVote cfg voters ∧ NonNegThreshold cfg ∧
+      (∀ v ∈ voters, v.Valid) ∧ cfg.minVoters = st.cfg.minVoters := by
+  induction ops generalizing st with
+  | nil => intro r hr; cases hr
+  | cons op rest ih =>
+    intro r hr
+    have hop := hops op (by simp)
+    have hst' := stepOp_valid st op hst hop
+    have hmv : (stepOp st op).1.cfg.minVoters = st.cfg.minVoters := by
+      cases op <;> simp only [stepOp] <;> (try split_ifs) <;> (try rfl)
+      cases st.last <;> rfl
+    have hrest : ∀ r ∈ runHistory (stepOp st op).1 rest, ∃ cfg voters, r = runVote cfg voters ∧ NonNegThreshold cfg ∧
+        (∀ v ∈ voters, v.Valid) ∧ cfg.minVoters = st.cfg.minVoters := by
+      intro r hr
+      obtain ⟨cfg, voters, h1, h2, h3, h4⟩ := ih _ hst' (fun o ho => hops o (by simp [ho])) r hr
+      exact ⟨cfg, voters, h1, h2, h3, by rw [h4, hmv]⟩
+    unfold runHistory at hr
+    cases hres : (stepOp st op).2 with
+    | none =>
+      have : stepOp st op = ((stepOp st op).1, none) := by rw [← hres]
+      rw [this] at hr
+      exact hrest r hr
+    | some r0 =>
+      have : stepOp st op = ((stepOp st op).1, some r0) := by rw [← hres]
+      rw [this] at hr
+      simp only [List.mem_cons] at hr
+      rcases hr with rfl | hr
+      · cases op with
+        | vote beh =>
+          simp only [stepOp] at hres
+          split_ifs at hres
+          simp only [Option.some.injEq] at hres
+          exact ⟨st.cfg, electorate st.colony beh, hres.symm, hst.1,
+            electorateFrom_valid beh hop 0 _ hst.2, rfl⟩
+        | updateAll d =>
+          simp only [stepOp] at hres
+          cases hl : st.last <;> simp [hl] at hres
+        | _ => simp [stepOp] at hres
+      · exact hrest r hr
+
 end Operon.Quorum
